@@ -40,4 +40,13 @@ def main():
 
 
 if __name__ == "__main__":
-    sys.exit(main())
+    try:
+        rc = main()
+    except SystemExit:
+        raise
+    except BaseException as e:  # a harness failure is never reported as exit 0 or 1
+        import traceback
+        traceback.print_exc()
+        print("HARNESS-ERROR: %s: %s" % (type(e).__name__, e))
+        rc = 2
+    sys.exit(rc)
